@@ -399,24 +399,20 @@ class ReentrantCache(CacheBase):
         self.busy = False
 
     def _reenter(self):
+        """Foreign code inside parse(): the cache callback itself parses another text on the SAME parser."""
         if self.parser is None or self.busy:
             return
         self.busy = True
+        pc = self.parser.parse_cache
+        self.parser.parse_cache = None
         try:
             self.stats['reentry'] += 1
-            lex = self.parser.lex
-            # a well-behaved re-entrant callback uses its own parser clone state: it parses on a *clone*
-            # of the lexer/parser pair? No - the point of the fault is foreign code touching the same parser.
-            saved = (lex.lexpos, lex.lineno, getattr(lex, 'paren_count', 0), getattr(lex, 'ast', None),
-                     lex.lexdata)
-            pc = self.parser.parse_cache
-            self.parser.parse_cache = None
             try:
                 self.parser.parse('[1, (2)]\n3')
-            finally:
-                self.parser.parse_cache = pc
-            del saved
+            except Exception:
+                pass
         finally:
+            self.parser.parse_cache = pc
             self.busy = False
 
     def __contains__(self, k):
